@@ -48,6 +48,8 @@ type Scenario struct {
 	ReachTgt  int                        `json:"reach_tgt,omitempty"`
 	BarrierN  int                        `json:"barrier_n,omitempty"`
 
+	// SlowEmit: every scheduler state report lingers 150 ms in EmitScheduler.
+	SlowEmit bool `json:"slow_emit,omitempty"`
 	// EmitGoexit: the scheduler state emitter calls runtime.Goexit at its first report.
 	EmitGoexit bool `json:"emit_goexit,omitempty"`
 	// UserCtx: the directive's context is an implementation of context.Context
@@ -517,6 +519,31 @@ func GenScenario(p *Program, r *Rand, exec uint64, tagName string, k int) *Scena
 				o.Gate = true
 				s.Out[f.ID] = o
 				s.GateOpen = "report"
+				break
+			}
+		}
+	case "slowstate":
+		// A state emitter that is slower than the flush interval: one function
+		// runs for 330 ms and every report lingers 150 ms in EmitScheduler.
+		// Reports come from the scheduler's loop, one at a time: two deliveries
+		// never overlap (a goroutine per report would grow with the emitter's
+		// latency instead of with the limit). Once per program.
+		if k > 0 || (p.Flow != nil && len(p.Flow.Emitters) == 0) || (p.Par != nil && len(p.Par.Emitters) == 0) {
+			break
+		}
+		for _, f := range fns {
+			if f.Role == "task" || f.Role == "ptask" {
+				o := s.Out[f.ID]
+				o.Delay, o.DelayArg = 2, 330000
+				s.Out[f.ID] = o
+				s.SlowEmit = true
+				// (with reports delivered on the loop goroutine a slow emitter
+				// slows the whole directive down: keep it small)
+				for ci := range s.Colls {
+					if len(s.Colls[ci]) > 2 {
+						s.Colls[ci] = s.Colls[ci][:2]
+					}
+				}
 				break
 			}
 		}
